@@ -142,9 +142,11 @@ Definition tmap_eqb (a b : tmap) : bool := tmap_sub a b && tmap_sub b a.
 Definition eff_in_pos (e : env) (s : bfst) : nat := Nat.min (in_pos (io s)) (length (input e)).
 
 Definition cfg_equiv (e : env) (c1 c2 : bfcfg) : bool :=
-  cmds_eqb (c_ctl c1) (c_ctl c2) && kont_eqb (c_kont c1) (c_kont c2)
-  && tmap_eqb (tape (c_st c1)) (tape (c_st c2)) && (ptr (c_st c1) =? ptr (c_st c2))
-  && Nat.eqb (eff_in_pos e (c_st c1)) (eff_in_pos e (c_st c2)).
+  (* cheap comparisons first: the extracted [&&] is lazy *)
+  (ptr (c_st c1) =? ptr (c_st c2))
+  && Nat.eqb (eff_in_pos e (c_st c1)) (eff_in_pos e (c_st c2))
+  && cmds_eqb (c_ctl c1) (c_ctl c2) && kont_eqb (c_kont c1) (c_kont c2)
+  && tmap_eqb (tape (c_st c1)) (tape (c_st c2)).
 
 (** configuration after exactly [n] steps, if the run has not ended before *)
 Fixpoint bf_cfg_after (w : Z) (e : env) (n : nat) (c : bfcfg) : option bfcfg :=
